@@ -6,6 +6,9 @@ CONSTANTS
   MaxLen = 3
   MaxTraffic = 2
   Reuse = "statement"
+  Paths = {"whole", "wholeOther", "res"}
+  Norm <- MCNorm
+  Defaulting = {}
 VIEW view
-INVARIANTS ReloadInvisible SamePresence ReuseRespected
+INVARIANTS ReloadInvisible SamePresence ReuseRespected IdentityIsCallerTuple
 CHECK_DEADLOCK FALSE
